@@ -925,4 +925,54 @@ Proof.
   split. { repeat constructor. exists [97; 120; 98; 120; 99; 233; 120; 10]%N. split; [|reflexivity]. repeat constructor; cbv; intuition discriminate. }
   repeat match goal with |- _ /\ _ => split end; try (vm_compute; reflexivity). eexists. vm_compute. reflexivity.
 Qed.
+
+(* % (lbuf_pair): the scan for the first bracket at or behind the cursor (strchr in the literal "()[]{}", block G_pairs), then the
+   nesting loop over lbuf_next in the direction the bracket's index gives, the depth counted in an int.  For every buffer in
+   memory, every position inside int with off >= 0, every model fuel mf for which the model's loop ends: returns 0 and stores
+   the model's matching position in *row, *off, or returns 1 and stores nothing.  The address-taken locals r and o of the C
+   function stay behind as two fresh one-cell blocks. *)
+Theorem C07_tr_lbuf_pair : forall m lb bln lbs lines br bo r o mf res d fuel,
+  lbuf_at m lb bln lbs lines -> str_at m G_lit__0 [] -> str_at m G_pairs pairs_b -> lines_small lines ->
+  cell_at m br r -> cell_at m bo o -> pos_ok r o -> (0 <= o)%Z ->
+  lbuf_pair mf (map chop lines) r o = Some res -> (Z.of_nat mf <= 2147483645)%Z ->
+  (mf < fuel)%nat -> (S (maxlen lines) < fuel)%nat ->
+  exists r1 o1,
+  callf cprog fuel (S (S (S (S (S d))))) F_lbuf_pair [VPtr lb 0; VPtr br 0; VPtr bo 0] m
+  = match res with
+    | Some (r', o') => Ok (VInt 0, set_pos m br bo r' o' ++ [[VInt r1]; [VInt o1]])
+    | None => Ok (VInt 1, m ++ [[VInt r1]; [VInt o1]])
+    end.
+Proof. exact tr_lbuf_pair. Qed.
+Print Assumptions C07_tr_lbuf_pair.
+
+(* it runs: "a(b[c]\n" "d)e}\n": % from (0,0) finds the "(" at offset 1 and lands on its ")" at (1,1), across the line break and over
+   the nested "[c]"; from (1,1) it comes back to (0,1); from (0,3) "[" -> (0,5); from (1,3) the "}" has no partner: failure, nothing
+   stored; from (1,2) "e" the scan runs to the "}" (same failure) *)
+Example C07_tr_pair_runs :
+  let lines := [[97; 40; 98; 91; 99; 93; 10]; [100; 41; 101; 125; 10]]%N in
+  let G := ex_G in
+  let st : block := repeat (VInt 0) 64 ++ [VPtr (G + 1) 0; VInt 0; VInt 2; VInt 4] ++ repeat (VInt 0) 7 in
+  let mem r o := cglobals ++ [st; [VPtr (G + 2) 0; VPtr (G + 3) 0; VInt 0; VInt 0];
+                              cstr_block (zb (nthl lines 0)); cstr_block (zb (nthl lines 1)); [VInt r]; [VInt o]] in
+  let run r o := callf cprog 100 10 F_lbuf_pair [VPtr G 0; VPtr (G + 4) 0; VPtr (G + 5) 0] (mem r o) in
+  (forall r o, lbuf_at (mem r o) G (G + 1) [G + 2; G + 3]%nat lines /\ cell_at (mem r o) (G + 4) r /\ cell_at (mem r o) (G + 5) o /\
+               str_at (mem r o) G_lit__0 [] /\ str_at (mem r o) G_pairs pairs_b) /\
+  lines_small lines /\
+  run 0 0 = Ok (VInt 0, mem 1 1 ++ [[VInt 1]; [VInt 1]]) /\ lbuf_pair 30 (map chop lines) 0 0 = Some (Some (1, 1)) /\
+  run 1 1 = Ok (VInt 0, mem 0 1 ++ [[VInt 0]; [VInt 1]]) /\ lbuf_pair 30 (map chop lines) 1 1 = Some (Some (0, 1)) /\
+  run 0 3 = Ok (VInt 0, mem 0 5 ++ [[VInt 0]; [VInt 5]]) /\ lbuf_pair 30 (map chop lines) 0 3 = Some (Some (0, 5)) /\
+  (exists r1 o1, run 1 3 = Ok (VInt 1, mem 1 3 ++ [[VInt r1]; [VInt o1]])) /\ lbuf_pair 30 (map chop lines) 1 3 = Some None /\
+  (exists r1 o1, run 1 2 = Ok (VInt 1, mem 1 2 ++ [[VInt r1]; [VInt o1]])) /\ lbuf_pair 30 (map chop lines) 1 2 = Some None.
+Proof.
+  cbv zeta. split.
+  { intros r o. split; [|repeat split; reflexivity]. constructor.
+    - eexists. repeat split; reflexivity.
+    - eexists. split; [reflexivity|]. split; [cbn; lia|]. intros [|[|i]] Hi; try reflexivity. cbn in Hi. lia.
+    - reflexivity.
+    - intros [|[|i]] Hi; try reflexivity. cbn in Hi. lia.
+    - repeat (apply NoDup_cons; [cbn [In]; intros H; repeat (destruct H as [H|H]; [lia|]); exact H|]). apply NoDup_nil.
+    - repeat (apply Forall_cons; [repeat (apply Forall_cons; [cbv; split; reflexivity|]); apply Forall_nil|]). apply Forall_nil. }
+  split; [split; [cbn; lia|repeat constructor; cbn; lia]|].
+  repeat match goal with |- _ /\ _ => split end; try (vm_compute; reflexivity); eexists; eexists; vm_compute; reflexivity.
+Qed.
 End C07_translated_3.
